@@ -25,8 +25,11 @@ CONSTANTS Subs,                \* submitter ids, e.g. {1, 2}
                                \* looks the command up under the mutex and sends the data on its channel afterwards
           Literal,             \* subset of Subs issuing a command with a synchronising literal (APPEND, a string
                                \* that cannot be quoted): the submitter keeps encMutex while it waits for "+"
-          ReleaseOnRefusal     \* design variant: encMutex is released when the literal is refused or the
+          ReleaseOnRefusal,    \* design variant: encMutex is released when the literal is refused or the
                                \* connection is lost during the wait (TRUE in go-imap; FALSE is the guard variant)
+          OwnAtTag             \* design variant: the reader removes a command from pendingCmds as soon as it has
+                               \* read the tag of its tagged response, before it parses the rest of the line (TRUE
+                               \* in go-imap); FALSE = looked up at the tag, removed only when completed (guard)
 
 VARIABLES pc,        \* [Subs -> "idle" | "init" | "write" | "cont" | "wait" | "done" | "stuck"]
           registered,\* pendingCmds: sequence of commands, in registration order
@@ -39,9 +42,11 @@ VARIABLES pc,        \* [Subs -> "idle" | "init" | "write" | "cont" | "wait" | "
           race,      \* a data race has happened
           enc,       \* holder of encMutex (0 = free): taken in beginCommand, released by commandEncoder.end
           found,     \* streaming command the reader has looked up and is about to hand data to (0 = none)
-          panicked   \* the reader sent on a channel that completeCommand had already closed
+          panicked,  \* the reader sent on a channel that completeCommand had already closed
+          taken      \* command whose tagged response the reader is in the middle of (tag read, rest of the line
+                     \* not yet parsed; 0 = none)
 
-vars == <<pc, registered, inited, sent, ncomp, conn, closer, reader, race, enc, found, panicked>>
+vars == <<pc, registered, inited, sent, ncomp, conn, closer, reader, race, enc, found, panicked, taken>>
 
 ReaderProc == 0   \* process id of the reader goroutine (submitters are 1, 2, ...)
 Procs == Subs \cup {ReaderProc}
@@ -53,6 +58,7 @@ Init ==
   /\ pc = [s \in Subs |-> "idle"] /\ registered = <<>> /\ inited = {} /\ sent = {}
   /\ ncomp = [s \in Subs |-> 0] /\ conn = "open"
   /\ closer = [p \in Procs |-> NoClose] /\ reader = "run" /\ race = FALSE /\ enc = 0 /\ found = 0 /\ panicked = FALSE
+  /\ taken = 0
 
 \* ------------------------------------------------------------ submitters
 \* beginCommand, critical section under the client mutex
@@ -62,13 +68,13 @@ Register(s) ==
   /\ IF RegisterBeforeInit
      THEN pc' = [pc EXCEPT ![s] = "init"] /\ inited' = inited
      ELSE pc' = [pc EXCEPT ![s] = "write"] /\ inited' = inited \cup {s}
-  /\ UNCHANGED <<sent, ncomp, conn, closer, reader, race, found, panicked>>
+  /\ UNCHANGED <<sent, ncomp, conn, closer, reader, race, found, panicked, taken>>
 
 \* (as-found design only) tag and done channel written outside the mutex
 Initialise(s) ==
   /\ pc[s] = "init"
   /\ inited' = inited \cup {s} /\ pc' = [pc EXCEPT ![s] = "write"]
-  /\ UNCHANGED <<registered, sent, ncomp, conn, closer, reader, race, enc, found, panicked>>
+  /\ UNCHANGED <<registered, sent, ncomp, conn, closer, reader, race, enc, found, panicked, taken>>
 
 \* the command line is flushed; on a dead connection the write fails and the
 \* submitter itself runs closeWithError
@@ -83,13 +89,13 @@ Write(s) ==
           /\ sent' = sent /\ pc' = [pc EXCEPT ![s] = "wait"]
           /\ closer' = [closer EXCEPT ![s] = [st |-> "swapped", take |-> registered]]
           /\ registered' = <<>>
-  /\ UNCHANGED <<inited, ncomp, conn, reader, race, found, panicked>>
+  /\ UNCHANGED <<inited, ncomp, conn, reader, race, found, panicked, taken>>
 
 \* the server sends the continuation request: the literal and the rest of the command are written
 ContGo(s) ==
   /\ pc[s] = "cont" /\ conn = "open" /\ InSeq(s, registered) /\ reader = "run"
   /\ pc' = [pc EXCEPT ![s] = "wait"] /\ enc' = 0
-  /\ UNCHANGED <<registered, inited, sent, ncomp, conn, closer, reader, race, found, panicked>>
+  /\ UNCHANGED <<registered, inited, sent, ncomp, conn, closer, reader, race, found, panicked, taken>>
 
 \* the command was completed while s waited for "+" (tagged refusal, or connection lost): the wait is
 \* abandoned, no octet is sent, and the encoder must be given back
@@ -97,13 +103,13 @@ ContFail(s) ==
   /\ pc[s] = "cont" /\ ncomp[s] >= 1
   /\ pc' = [pc EXCEPT ![s] = "wait"]
   /\ enc' = IF ReleaseOnRefusal THEN 0 ELSE enc
-  /\ UNCHANGED <<registered, inited, sent, ncomp, conn, closer, reader, race, found, panicked>>
+  /\ UNCHANGED <<registered, inited, sent, ncomp, conn, closer, reader, race, found, panicked, taken>>
 
 \* Wait returns once the command has been completed
 Wait(s) ==
   /\ pc[s] = "wait" /\ ncomp[s] >= 1 /\ closer[s].st \in {"none", "done"}
   /\ pc' = [pc EXCEPT ![s] = "done"]
-  /\ UNCHANGED <<registered, inited, sent, ncomp, conn, closer, reader, race, enc, found, panicked>>
+  /\ UNCHANGED <<registered, inited, sent, ncomp, conn, closer, reader, race, enc, found, panicked, taken>>
 
 \* ------------------------------------------------------------ completing a command
 \* completeCommand(c) executed by process p: on an uninitialised command p blocks forever
@@ -113,37 +119,45 @@ CompleteBy(p, c) ==
   ELSE ncomp' = ncomp
 
 \* ------------------------------------------------------------ reader
-\* tagged response for c: look it up by tag under the mutex, remove it, complete it.
+\* tagged response for c: the reader reads the tag, looks the command up under the mutex and takes it out of
+\* pendingCmds (from then on it is the reader's to complete, whatever happens to the connection) ...
 \* Looking at the tags of all pending commands races with an Initialise in progress.
-Answer(c) ==
-  /\ reader = "run" /\ found = 0 /\ conn = "open" /\ c \in sent /\ InSeq(c, registered) /\ c \in inited
-  /\ registered' = Without(registered, c)
+AnswerTake(c) ==
+  /\ reader = "run" /\ found = 0 /\ taken = 0 /\ conn = "open" /\ c \in sent /\ InSeq(c, registered) /\ c \in inited
+  /\ registered' = IF OwnAtTag THEN Without(registered, c) ELSE registered
   /\ race' = (race \/ (\E i \in 1..Len(registered) : registered[i] \notin inited))
-  /\ CompleteBy(ReaderProc, c)
-  /\ UNCHANGED <<pc, inited, sent, conn, closer, reader, enc, found, panicked>>
+  /\ taken' = c
+  /\ UNCHANGED <<pc, inited, sent, ncomp, conn, closer, reader, enc, found, panicked>>
+\* ... parses the rest of the line (status, code, text - already received or not) and completes the command
+AnswerComplete ==
+  /\ taken # 0
+  /\ registered' = Without(registered, taken)
+  /\ CompleteBy(ReaderProc, taken)
+  /\ taken' = 0
+  /\ UNCHANGED <<pc, inited, sent, conn, closer, reader, race, enc, found, panicked>>
 
 \* untagged data for streaming command c: looked up under the mutex ...
 DeliverFind(c) ==
-  /\ reader = "run" /\ found = 0 /\ conn = "open" /\ c \in Streaming /\ c \in sent /\ InSeq(c, registered)
+  /\ reader = "run" /\ found = 0 /\ taken = 0 /\ conn = "open" /\ c \in Streaming /\ c \in sent /\ InSeq(c, registered)
   /\ found' = c
-  /\ UNCHANGED <<pc, registered, inited, sent, ncomp, conn, closer, reader, race, enc, panicked>>
+  /\ UNCHANGED <<pc, registered, inited, sent, ncomp, conn, closer, reader, race, enc, panicked, taken>>
 \* ... and sent on the command's channel outside of it; completeCommand closes that channel
 DeliverSend ==
   /\ found # 0
   /\ panicked' = (panicked \/ ncomp[found] > 0)
   /\ found' = 0
-  /\ UNCHANGED <<pc, registered, inited, sent, ncomp, conn, closer, reader, race, enc>>
+  /\ UNCHANGED <<pc, registered, inited, sent, ncomp, conn, closer, reader, race, enc, taken>>
 
 \* the connection is lost (server closes, reset, Close() by the user)
 Lose == /\ conn = "open" /\ conn' = "lost"
-        /\ UNCHANGED <<pc, registered, inited, sent, ncomp, closer, reader, race, enc, found, panicked>>
+        /\ UNCHANGED <<pc, registered, inited, sent, ncomp, closer, reader, race, enc, found, panicked, taken>>
 
 \* the reader notices and runs closeWithError: swap pendingCmds out under the mutex ...
 ReaderSwap ==
-  /\ reader = "run" /\ found = 0 /\ conn = "lost" /\ closer[ReaderProc].st = "none"
+  /\ reader = "run" /\ found = 0 /\ taken = 0 /\ conn = "lost" /\ closer[ReaderProc].st = "none"
   /\ closer' = [closer EXCEPT ![ReaderProc] = [st |-> "swapped", take |-> registered]]
   /\ registered' = <<>>
-  /\ UNCHANGED <<pc, inited, sent, ncomp, conn, reader, race, enc, found, panicked>>
+  /\ UNCHANGED <<pc, inited, sent, ncomp, conn, reader, race, enc, found, panicked, taken>>
 
 \* ... then complete every command taken, one by one (by whoever runs closeWithError)
 CloseComplete(p, c) ==
@@ -153,18 +167,18 @@ CloseComplete(p, c) ==
           /\ closer' = [closer EXCEPT ![p].take = Tail(@)]
      ELSE /\ ncomp' = ncomp          \* send on a nil channel: p never gets further
           /\ closer' = [closer EXCEPT ![p].st = "stuck"]
-  /\ UNCHANGED <<pc, registered, inited, sent, conn, reader, race, enc, found, panicked>>
+  /\ UNCHANGED <<pc, registered, inited, sent, conn, reader, race, enc, found, panicked, taken>>
 
 CloseDone(p) ==
   /\ closer[p].st = "swapped" /\ closer[p].take = <<>>
   /\ closer' = [closer EXCEPT ![p].st = "done"]
   /\ reader' = IF p = ReaderProc THEN "exit" ELSE reader
   /\ enc' = IF p = enc THEN 0 ELSE enc
-  /\ UNCHANGED <<pc, registered, inited, sent, ncomp, conn, race, found, panicked>>
+  /\ UNCHANGED <<pc, registered, inited, sent, ncomp, conn, race, found, panicked, taken>>
 
 Next ==
-  \/ \E s \in Subs : Register(s) \/ Initialise(s) \/ Write(s) \/ ContGo(s) \/ ContFail(s) \/ Wait(s) \/ Answer(s)
-  \/ Lose \/ ReaderSwap \/ DeliverSend
+  \/ \E s \in Subs : Register(s) \/ Initialise(s) \/ Write(s) \/ ContGo(s) \/ ContFail(s) \/ Wait(s) \/ AnswerTake(s)
+  \/ Lose \/ ReaderSwap \/ DeliverSend \/ AnswerComplete
   \/ \E c \in Subs : DeliverFind(c)
   \/ \E p \in Procs, c \in Subs : CloseComplete(p, c)
   \/ \E p \in Procs : CloseDone(p)
